@@ -1,8 +1,9 @@
 (** C08 - network surgery keeps the network consistent and means what it says.
     Property theorems only (proofs: Qib.TN.TNWF, TNMerge, TNConsistent, TNProofs, TNCounts,
-    TNSem).  The model (Qib.TN.TNModel) is a hand port of symbolic_network.py WITH the proposed
-    repairs (merge: every deleted open axis once; is_consistent: exact leg count) and is tied
-    to /repo by the exact correspondence run of checks/C08.py on every run. *)
+    TNSem).  The model (Qib.TN.TNModel) is a hand port of symbolic_network.py WITH the repairs
+    (merge: every deleted open axis once; is_consistent: exact leg count; transpose: permutation
+    test; merge: dimension test; rename_tensor: refuses the virtual tensor) and is tied to /repo
+    by the exact correspondence run of checks/C08.py on every run. *)
 From Qib Require Import TN.TNSem TN.TNConsistentConv TN.TNGenBase Base.Inst.
 From Run Require Import GenTN.
 Local Open Scope Z_scope.
@@ -30,13 +31,15 @@ Proof.
 Qed.
 Print Assumptions C08_invariant_is_exactly_is_consistent.
 
-(** 2. every accepted operation preserves the invariant.  Guards (none is validated by the
-    code): the virtual tensor -1 is not renamed; the transposition is a permutation of all
-    open axes; the second operand is consistent and joined axes have equal dimensions.
-    The iteration order of the Python sets of shared ids (ordT, ordB) is arbitrary. *)
+(** 2. EVERY accepted operation preserves the invariant - no side condition on the arguments beyond
+    what the code itself checks (the second operand of a merge is a network of its own and has to
+    be consistent too).  The code refuses (ValueError): renaming the virtual tensor -1, axes that
+    are not a permutation of all open axes (negative entries count from the last axis), joins out
+    of range or between axes of unequal dimension.  The iteration order of the Python sets of
+    shared ids (ordT, ordB) is arbitrary. *)
 Theorem C08_rename_tensor_keeps_invariant :
-  forall n a c n', WF n -> a <> VT -> rename_tensor n a c = Some n' -> WF n'.
-Proof. intros n a c n' W Ha H. exact (sstep_WF n (SRenT a c) n' W Ha H). Qed.
+  forall n a c n', WF n -> rename_tensor n a c = Some n' -> WF n'.
+Proof. intros n a c n' W H. exact (sstep_WF n (SRenT a c) n' W I H). Qed.
 Print Assumptions C08_rename_tensor_keeps_invariant.
 
 Theorem C08_rename_bond_keeps_invariant :
@@ -45,20 +48,38 @@ Proof. intros n a c n' W H. exact (sstep_WF n (SRenB a c) n' W I H). Qed.
 Print Assumptions C08_rename_bond_keeps_invariant.
 
 Theorem C08_transpose_keeps_invariant :
-  forall n axes n', WF n -> is_perm_of axes n -> transpose n axes = Some n' -> WF n'.
-Proof. intros n axes n' W P H. exact (sstep_WF n (STrans axes) n' W P H). Qed.
+  forall n axes n', WF n -> transpose n axes = Some n' -> WF n'.
+Proof. intros n axes n' W H. exact (sstep_WF n (STrans axes) n' W I H). Qed.
 Print Assumptions C08_transpose_keeps_invariant.
 
 Theorem C08_merge_keeps_invariant :
-  forall n o joins ordT ordB n', WF n -> WF o -> joins_dim_ok n o joins ->
-    merge n o joins ordT ordB = Some n' -> WF n'.
+  forall n o joins ordT ordB n', WF n -> WF o -> merge n o joins ordT ordB = Some n' -> WF n'.
 Proof. exact merge_WF. Qed.
 Print Assumptions C08_merge_keeps_invariant.
 
-(** 3. from any consistent starting point, along any sequence (refused operations leave the
-    network unchanged), the network and every intermediate network pass is_consistent *)
+(** 2'. what acceptance means: the virtual tensor is never renamed; an accepted transposition uses
+    a permutation of ALL open axes; an accepted merge joins axes of equal dimension *)
+Theorem C08_accepted_means_validated :
+  (forall n c, rename_tensor n VT c = None) /\
+  (forall n axes n', WF n -> transpose n axes = Some n' ->
+     Permutation.Permutation (nat_axes n axes) (seq 0 (length (vbids n)))) /\
+  (forall n o joins ordT ordB n', merge n o joins ordT ordB = Some n' ->
+     forall Sn So j, shape n = Some Sn -> shape o = Some So -> In j joins ->
+       exists d, nth_error Sn (fst j) = Some d /\ nth_error So (snd j) = Some d).
+Proof.
+  split; [|split].
+  - intros n c. unfold rename_tensor. rewrite Z.eqb_refl. reflexivity.
+  - intros n axes n' W H. exact (transpose_is_perm n axes n' (proj1 W) H).
+  - intros n o joins ordT ordB n' H Sn So j HSn HSo Hj.
+    exact (merge_joins_dim_ok n o joins ordT ordB n' H Sn So HSn HSo j Hj).
+Qed.
+Print Assumptions C08_accepted_means_validated.
+
+(** 3. from any consistent starting point, along ANY sequence of operations with consistent merge
+    operands (refused operations leave the network unchanged), the network and every
+    intermediate network pass is_consistent *)
 Theorem C08_any_sequence_stays_consistent :
-  forall ops n k, WF n -> guarded n ops ->
+  forall ops n k, WF n -> operands_consistent ops ->
     WF (fold_left apply_op ops n) /\ is_consistent (fold_left apply_op (firstn k ops) n) = true.
 Proof.
   intros ops n k W G. split; [apply sequence_WF; assumption | apply sequence_consistent_prefix; assumption].
@@ -67,7 +88,7 @@ Print Assumptions C08_any_sequence_stays_consistent.
 
 (** 3'. the same, started from the library's own check instead of the invariant *)
 Theorem C08_any_sequence_stays_consistent_from_is_consistent :
-  forall ops n k, Rep n -> is_consistent n = true -> guarded n ops ->
+  forall ops n k, Rep n -> is_consistent n = true -> operands_consistent ops ->
     is_consistent (fold_left apply_op ops n) = true /\ is_consistent (fold_left apply_op (firstn k ops) n) = true.
 Proof.
   intros ops n k R C G. pose proof (is_consistent_WF n R C) as W. split.
@@ -76,65 +97,78 @@ Proof.
 Qed.
 Print Assumptions C08_any_sequence_stays_consistent_from_is_consistent.
 
-(** 3''. the three guards are NECESSARY: the code accepts each of these calls on a consistent
-    network and leaves a network that fails its own check (KNOWN FINDINGS of this property;
-    checks/C08.py runs these inputs on the implementation on every run):
-      - rename_tensor(-1, c) renames the virtual tensor away,
-      - transpose(axes) only checks that the axes are distinct, not that they are all axes,
-      - merge does not compare the dimensions of the joined axes. *)
+(** [operands_consistent] only speaks about the second operands of the merges of the sequence *)
+Theorem C08_operands_consistent_meaning :
+  forall ops, operands_consistent ops <-> (forall o joins ordT ordB, In (SMerge o joins ordT ordB) ops -> WF o).
+Proof.
+  intros ops. split.
+  - intros H o joins ordT ordB Hin. exact (H _ Hin).
+  - intros H o Hin. destruct o; cbn; auto. eapply H; eauto.
+Qed.
+Print Assumptions C08_operands_consistent_meaning.
+
+(** 3''. the calls that used to be accepted and left an inconsistent network (defects of qib,
+    repaired by proposed_fixes/C08-rename-tensor-refuses-virtual.diff, C08-transpose-requires-
+    permutation.diff, C08-merge-checks-join-dimensions.diff) are refused now; a transposition by
+    negative axes that form a permutation is still accepted *)
 Definition guard_net : net :=
   mkN [(0%Z, mkT 0%Z [2; 3; 2]%nat [0; 1; 2]%Z 0%Z); ((-1)%Z, mkT (-1)%Z [2; 3; 2]%nat [0; 1; 2]%Z (-1)%Z)]
       [(0, mkB 0 [-1; 0]); (1, mkB 1 [-1; 0]); (2, mkB 2 [-1; 0])]%Z.
 
-Theorem C08_rename_of_virtual_tensor_refuted :
-  exists n c n', WF n /\ rename_tensor n VT c = Some n' /\ is_consistent n' = false.
+Theorem C08_formerly_accepted_calls_are_refused :
+  WF guard_net /\
+  rename_tensor guard_net VT 5 = None /\
+  transpose guard_net [2] = None /\ transpose guard_net [-1; 0; 2] = None /\
+  merge guard_net guard_net [(0, 1)]%nat [0; -1] [0; 1; 2] = None /\
+  (exists n', transpose guard_net [-1; 0; -2] = Some n' /\ is_consistent n' = true /\ shape n' = Some [2; 2; 3]%nat).
 Proof.
-  exists guard_net, 5%Z. eexists. split; [apply wf_b_WF; vm_compute; reflexivity|].
-  split; [vm_compute; reflexivity | vm_compute; reflexivity].
+  split; [apply wf_b_WF; vm_compute; reflexivity|].
+  repeat (split; [vm_compute; reflexivity|]).
+  eexists. split; [vm_compute; reflexivity|]. split; vm_compute; reflexivity.
 Qed.
-Print Assumptions C08_rename_of_virtual_tensor_refuted.
+Print Assumptions C08_formerly_accepted_calls_are_refused.
 
-Theorem C08_partial_transpose_refuted :
-  exists n axes n', WF n /\ transpose n axes = Some n' /\ is_consistent n' = false.
+(** ... and the new tests are not superfluous: the private worker _rename_tensor (which merge uses
+    on its own copy) applied to the virtual tensor, and the axis selection of transpose applied to
+    distinct axes that are not all axes, leave networks that fail is_consistent *)
+Theorem C08_refusals_are_necessary :
+  (exists n c n', WF n /\ rename_tensor_priv n VT c = Some n' /\ is_consistent n' = false) /\
+  (exists n t axes, WF n /\ dget VT (tensors n) = Some t /\ NoDup axes /\ (forall ax, In ax axes -> (ax < t_ndim t)%nat) /\
+     is_consistent (mkN (dset VT (transposed t axes) (tensors n)) (bonds n)) = false).
 Proof.
-  exists guard_net, [2%nat]. eexists. split; [apply wf_b_WF; vm_compute; reflexivity|].
-  split; [vm_compute; reflexivity | vm_compute; reflexivity].
+  split.
+  - exists guard_net, 5%Z. eexists. split; [apply wf_b_WF; vm_compute; reflexivity|].
+    split; [vm_compute; reflexivity | vm_compute; reflexivity].
+  - exists guard_net. eexists. exists [2%nat]. split; [apply wf_b_WF; vm_compute; reflexivity|].
+    split; [vm_compute; reflexivity|]. split; [repeat constructor; intros []|].
+    split; [intros ax [<-|[]]; vm_compute; lia | vm_compute; reflexivity].
 Qed.
-Print Assumptions C08_partial_transpose_refuted.
-
-Theorem C08_merge_of_unequal_dimensions_refuted :
-  exists n o joins ordT ordB n', WF n /\ WF o /\ merge n o joins ordT ordB = Some n' /\ is_consistent n' = false.
-Proof.
-  exists guard_net, guard_net, [(0, 1)]%nat, [0; -1]%Z, [0; 1; 2]%Z. eexists.
-  split; [apply wf_b_WF; vm_compute; reflexivity|]. split; [apply wf_b_WF; vm_compute; reflexivity|].
-  split; [vm_compute; reflexivity | vm_compute; reflexivity].
-Qed.
-Print Assumptions C08_merge_of_unequal_dimensions_refuted.
+Print Assumptions C08_refusals_are_necessary.
 
 (** 4. counts: unchanged by renames and transpositions; after a merge the tensors add up, the
     bonds add up minus the fused ones (at most one per join), and for joins that use every open
     axis at most once the open axes add up minus two per join *)
 Theorem C08_counts_rename_transpose :
   forall n n', WF n ->
-    (forall a c, a <> VT -> rename_tensor n a c = Some n' -> counts_eq n n') /\
+    (forall a c, rename_tensor n a c = Some n' -> counts_eq n n') /\
     (forall a c, rename_bond n a c = Some n' -> counts_eq n n') /\
-    (forall axes, is_perm_of axes n -> transpose n axes = Some n' -> counts_eq n n').
+    (forall axes, transpose n axes = Some n' -> counts_eq n n').
 Proof.
   intros n n' W. unfold counts_eq. split; [|split].
-  - intros a c Ha H. destruct (rename_tensor_counts n a c n' W Ha H) as [A [B C]]. auto.
+  - intros a c H. destruct (rename_tensor_counts n a c n' W H) as [A [B C]]. auto.
   - intros a c H. destruct (rename_bond_counts n a c n' W H) as [A [B C]]. auto.
-  - intros axes P H. destruct (transpose_counts n axes n' W P H) as [A [B C]]. auto.
+  - intros axes H. destruct (transpose_counts n axes n' W H) as [A [B C]]. auto.
 Qed.
 Print Assumptions C08_counts_rename_transpose.
 
 Theorem C08_counts_merge :
-  forall n o joins ordT ordB n', WF n -> WF o -> joins_dim_ok n o joins ->
+  forall n o joins ordT ordB n', WF n -> WF o ->
     merge n o joins ordT ordB = Some n' ->
     forall nt1 nt2 no1 no2, num_tensors n = Some nt1 -> num_tensors o = Some nt2 ->
       num_open_axes n = Some no1 -> num_open_axes o = Some no2 ->
     num_tensors n' = Some (nt1 + nt2)%nat /\
     (num_bonds n' <= num_bonds n + num_bonds o <= num_bonds n' + length joins)%nat /\
-    (NoDup (map fst joins) -> NoDup (map snd joins) -> (forall j, In j joins -> (snd j < no2)%nat) ->
+    (NoDup (map fst joins) -> NoDup (map snd joins) ->
      num_open_axes n' = Some (no1 + no2 - 2 * length joins)%nat).
 Proof. exact merge_counts. Qed.
 Print Assumptions C08_counts_merge.
@@ -162,7 +196,7 @@ Print Assumptions C08_fresh_ids.
     commutative ring of scalars and all tensor data. *)
 Theorem C08_rename_tensor_keeps_value :
   forall (K : Scalar) (L : ScalarLaws K) n a c n' (data : Z -> list nat -> K) x,
-    WF n -> a <> VT -> rename_tensor n a c = Some n' -> defining_sum n' data x = defining_sum n data x.
+    WF n -> rename_tensor n a c = Some n' -> defining_sum n' data x = defining_sum n data x.
 Proof. intros. eapply rename_tensor_value; eauto. Qed.
 Print Assumptions C08_rename_tensor_keeps_value.
 
@@ -172,17 +206,18 @@ Theorem C08_rename_bond_keeps_value :
 Proof. intros. eapply rename_bond_value; eauto. Qed.
 Print Assumptions C08_rename_bond_keeps_value.
 
-(** transposing permutes the value like numpy.transpose:  V'[x] = V[y]  with  y[axes[k]] = x[k] *)
+(** transposing permutes the value like numpy.transpose:  V'[x] = V[y]  with  y[axes[k]] = x[k]
+    ([nat_axes]: the axes with negative entries counted from the last axis, as numpy does) *)
 Theorem C08_transpose_permutes_value :
   forall (K : Scalar) (L : ScalarLaws K) n axes n' (data : Z -> list nat -> K) x,
-    WF n -> is_perm_of axes n -> transpose n axes = Some n' -> length x = length axes ->
-    defining_sum n' data x = defining_sum n data (untranspose axes x).
+    WF n -> transpose n axes = Some n' -> length x = length axes ->
+    defining_sum n' data x = defining_sum n data (untranspose (nat_axes n axes) x).
 Proof. intros. eapply transpose_value; eauto. Qed.
 Print Assumptions C08_transpose_permutes_value.
 
 (* 7. merge = contraction over the joined axes  (NOT proved; full statement, for joins that use
    every open axis at most once, joins = [(a_1,b_1);...;(a_m,b_m)]):
-     forall n o joins ordT ordB n' data x, WF n -> WF o -> joins_dim_ok n o joins ->
+     forall n o joins ordT ordB n' data x, WF n -> WF o ->
        merge n o joins ordT ordB = Some n' -> length x = (no1 - m) + (no2 - m) ->
        defining_sum n' data x =
          sum over j_1..j_m (j_r < dimension of axis a_r) of
@@ -200,7 +235,9 @@ Print Assumptions C08_transpose_permutes_value.
 (** [Run.GenTN] is regenerated on every run by gen/tn.py from
     /repo/src/qib/tensor_network/symbolic_network.py (fail-closed ast translation of the closed-form
     parts: merge's fresh-id arithmetic, join validation, del_axes, kept-axes selection; the
-    preconditions of rename_tensor / rename_bond / SymbolicBond / transpose; every `return False`
+    preconditions of rename_tensor (public guard, delegation) / _rename_tensor / rename_bond /
+    SymbolicBond; transpose's normalisation of negative axes, permutation test and selection;
+    merge's dimension test; every `return False`
     condition of is_consistent, its loop skeleton being pinned).  The theorems below are about
     these regenerated definitions: what they are FOR (freshness) and that they are what the hand
     model Qib.TN.TNModel uses - so a change of one of these expressions in /repo breaks a theorem
@@ -231,9 +268,10 @@ Theorem C08_source_merge_is_model :
   gen_merge_tmp_init = VT /\
   (forall next, gen_merge_tid_step next = next + 1 /\ gen_merge_bid_step next = next + 1) /\
   (forall tid, gen_merge_is_virtual tid = Z.eqb tid VT) /\
-  (forall (j : nat * nat) n1 n2, gen_merge_join_refused (Z.of_nat (fst j)) (Z.of_nat (snd j)) n1 n2
-                                 = negb (Nat.ltb (fst j) n1 && Nat.ltb (snd j) n2)) /\
-  (forall j0 j1 n1 n2, (j0 < 0 \/ j1 < 0) -> gen_merge_join_refused j0 j1 n1 n2 = true) /\
+  (forall (j : nat * nat) n1 n2 s1 s2, gen_merge_join_refused (Z.of_nat (fst j)) (Z.of_nat (snd j)) n1 n2 s1 s2
+                                 = negb (Nat.ltb (fst j) n1 && Nat.ltb (snd j) n2
+                                         && Nat.eqb (nth (fst j) s1 O) (nth (snd j) s2 O))) /\
+  (forall j0 j1 n1 n2 s1 s2, (j0 < 0 \/ j1 < 0) -> gen_merge_join_refused j0 j1 n1 n2 s1 s2 = true) /\
   (forall ndim amap, gen_merge_del_axes ndim amap = filter (fun i => negb (nmem i amap)) (seq 0 ndim)) /\
   (forall tids, gen_merge_bond_still_ok tids = negb (Nat.ltb (length tids) 2)) /\
   (forall l amap, gen_merge_keep_shape l amap = map (fun i => nth i l O) amap) /\
@@ -245,8 +283,10 @@ Proof.
   - reflexivity.
   - intros next. unfold gen_merge_tid_step, gen_merge_bid_step. lia.
   - intros tid. unfold gen_merge_is_virtual, VT. cmp_bool.
-  - intros j n1 n2. unfold gen_merge_join_refused. cmp_bool.
-  - intros j0 j1 n1 n2 H. unfold gen_merge_join_refused. cmp_bool.
+  - intros j n1 n2 s1 s2. unfold gen_merge_join_refused. rewrite !Nat2Z.id. cmp_bool.
+  - intros j0 j1 n1 n2 s1 s2 H. unfold gen_merge_join_refused.
+    destruct (Z.ltb_spec j0 0); [reflexivity|]. destruct (Z.ltb_spec j1 0); [|lia].
+    cbn. rewrite orb_true_r. reflexivity.
   - intros. reflexivity.
   - intros tids. unfold gen_merge_bond_still_ok. cmp_bool.
   - intros. reflexivity.
@@ -255,20 +295,27 @@ Qed.
 Print Assumptions C08_source_merge_is_model.
 
 Theorem C08_source_rename_transpose_bond_are_model :
-  (forall n a c, gen_rename_tensor_refused a c (tensors n) = true -> rename_tensor n a c = None) /\
-  (forall n a c, WF n -> gen_rename_tensor_refused a c (tensors n) = false -> exists n', rename_tensor n a c = Some n') /\
+  (forall n a c, gen_rename_tensor_refused a c = true -> rename_tensor n a c = None) /\
+  (forall n a c, gen_rename_tensor_refused a c = false -> rename_tensor n a c = rename_tensor_priv n a c) /\
+  (forall n a c, gen_rename_tensor_priv_refused a c (tensors n) = true -> rename_tensor_priv n a c = None) /\
+  (forall n a c, WF n -> gen_rename_tensor_priv_refused a c (tensors n) = false -> exists n', rename_tensor_priv n a c = Some n') /\
   (forall n a c, gen_rename_bond_refused a c (bonds n) = true -> rename_bond n a c = None) /\
   (forall n a c, WF n -> gen_rename_bond_refused a c (bonds n) = false -> exists n', rename_bond n a c = Some n') /\
-  (forall n axes, gen_transpose_refused axes = true -> transpose n axes = None) /\
+  (forall ndim axes, gen_transpose_norm ndim axes = norm_axes ndim axes) /\
+  (forall ndim axes, gen_transpose_refused ndim axes = axes_refused ndim axes) /\
+  (forall n axes t, dget VT (tensors n) = Some t -> gen_transpose_refused (t_ndim t) axes = true -> transpose n axes = None) /\
   (forall n axes t n', dget VT (tensors n) = Some t -> transpose n axes = Some n' ->
-     dget VT (tensors n') = Some (mkT (t_id t) (gen_transpose_shape (t_shape t) axes) (gen_transpose_bids (t_bids t) axes) (t_ref t))) /\
+     dget VT (tensors n') = Some (mkT (t_id t) (gen_transpose_shape (t_shape t) (gen_transpose_norm (t_ndim t) axes))
+                                      (gen_transpose_bids (t_bids t) (gen_transpose_norm (t_ndim t) axes)) (t_ref t))) /\
   (forall tids, gen_bond_refused tids = negb (Nat.leb 2 (length tids))) /\
   (forall tids, gen_bond_tids tids = zsort tids).
 Proof.
-  refine (conj _ (conj _ (conj _ (conj _ (conj _ (conj _ (conj _ _))))))).
-  - intros n a c H. unfold gen_rename_tensor_refused in H. unfold rename_tensor, dhas in *.
+  refine (conj _ (conj _ (conj _ (conj _ (conj _ (conj _ (conj _ (conj _ (conj _ (conj _ (conj _ _))))))))))).
+  - intros n a c H. unfold gen_rename_tensor_refused in H. unfold rename_tensor, VT. rewrite H. reflexivity.
+  - intros n a c H. unfold gen_rename_tensor_refused in H. unfold rename_tensor, VT. rewrite H. reflexivity.
+  - intros n a c H. unfold gen_rename_tensor_priv_refused in H. unfold rename_tensor_priv, dhas in *.
     destruct (dget a (tensors n)); [|reflexivity]. destruct (dget c (tensors n)); [reflexivity | discriminate].
-  - intros n a c [W _] H. unfold gen_rename_tensor_refused in H. unfold rename_tensor.
+  - intros n a c [W _] H. unfold gen_rename_tensor_priv_refused in H. unfold rename_tensor_priv.
     destruct (dget a (tensors n)) as [t|] eqn:Ea; [|unfold dhas in H; rewrite Ea in H; discriminate].
     destruct (dhas c (tensors n)) eqn:Ec; [unfold dhas in H; rewrite Ea in H; discriminate|].
     destruct (wf_T n W a t (dget_In _ _ _ Ea)) as [-> _]. rewrite Z.eqb_refl. cbn [negb].
@@ -282,12 +329,16 @@ Proof.
     destruct (wf_B n W a b (dget_In _ _ _ Ea)) as [-> _]. rewrite Z.eqb_refl. cbn [negb].
     rewrite rebid_step_upd, ofold_upd; [eexists; reflexivity | apply (wf_ndT n W) |].
     intros k Hk. eapply wf_tids_exist; eauto. apply dget_In. exact Ea.
-  - intros n axes H. unfold gen_transpose_refused in H. unfold transpose.
-    destruct (dget VT (tensors n)); [|reflexivity]. rewrite H. reflexivity.
+  - intros. reflexivity.
+  - intros. reflexivity.
+  - intros n axes t Ht H. unfold transpose. rewrite Ht.
+    change (gen_transpose_refused (t_ndim t) axes) with (axes_refused (t_ndim t) axes) in H.
+    rewrite H. reflexivity.
   - intros n axes t n' Ht H. unfold transpose in H. rewrite Ht in H.
-    destruct (negb (nnodupb axes)); [discriminate|].
-    destruct (negb (forallb _ axes)); [discriminate|]. injection H as <-. cbn [tensors].
-    rewrite dget_dset, Z.eqb_refl. reflexivity.
+    destruct (axes_refused (t_ndim t) axes); [discriminate|].
+    destruct (negb (forallb _ _)); [discriminate|]. injection H as <-. cbn [tensors].
+    rewrite dget_dset, Z.eqb_refl. unfold gen_transpose_shape, gen_transpose_bids.
+    change (gen_transpose_norm (t_ndim t) axes) with (norm_axes (t_ndim t) axes). rewrite !map_map. reflexivity.
   - intros tids. unfold gen_bond_refused. cmp_bool.
   - intros tids. reflexivity.
 Qed.
